@@ -54,7 +54,7 @@ def verdict(rep, nolink):
 
 def run_case(case, cx):
     m, m2, cfg = case["model"], case["mutant"], case["cfg"]
-    d, b1, b2 = pairs.build_pair(cx, m, m2, cfg, nodebug_tus=tuple(case["nodebug"]))
+    d, b1, b2 = pairs.build_pair(cx, m, m2, cfg, nodebug_tus=tuple(case["nodebug"]), sonames=case.get("sonames"))
     base = pairs.abidiff(cx, b1, b2, case["mode"])
     if cbuild.crashed(base):
         cx.violation("crash:" + cbuild.crash_key(base), base.brief())
